@@ -86,6 +86,11 @@ let handle op args = match op, args with
       "ok:" ^ b2s (m_isKeystone h ki);
       "ok:" ^ hex_of_z (m_firstKeystoneAfter h ki);
       (if m_isKeystone h ki then "ok:" ^ hex_of_z (m_highestConnecting h ki) else "abort") ]
+  | "m3", [a; b; ki] ->
+    let a = z_of_hex a and b = z_of_hex b and ki = z_of_hex ki in
+    "ok:" ^ b2s (m_crossed a b ki) ^ " ok:" ^ b2s (m_sameInterval a b ki)
+  | "mgpk", [h; ki; n] ->
+    "ok:" ^ hex_of_z (m_previousKeystone (z_of_hex h) (z_of_hex ki) (z_of_hex n))
   | "params", [] ->
     let l t = String.concat "," (List.map hex_of_z t) in
     Printf.sprintf "alt %s %s %s vbk %s %s %s"
